@@ -3,6 +3,9 @@ import RV.C16.LemXml
 import RV.C16.LemCsv
 import RV.C16.LemLazy
 import RV.C16.LemMulti
+import RV.C16.LemTextJson
+import RV.C16.LemTextCsv
+import RV.C16.LemTextXml
 /-
   C16 — helper lemmas, split by format:
     LemJson    binding dicts vs aligned rows, `parseJsonTerm ∘ termToJSON`
@@ -14,5 +17,8 @@ import RV.C16.LemMulti
     LemTsvDoc  header, lines, rows, document
     LemCsv     CSV fields
     LemLazy    the lazily evaluated Result: materialised ++ pending is invariant
+    LemTextJson  (round g) JSON string tokens: `scanstring` undoes every RFC 8259 spelling
+    LemTextCsv   (round g) CSV text: the `csv.reader` state machine undoes `csv.writer` and every RFC 4180 rendering
+    LemTextXml   (round g) XML text: an XML 1.0 parser undoes `escape` / `_characters` / `quoteattr`
     LemMulti   several live iterators over one Result: the same invariant; what the generator-reading iterators hand out
 -/
